@@ -234,6 +234,12 @@ def run(tier, seed):
     os.makedirs(CW, exist_ok=True)
     import xmlcommon
     ok_tr, info = xmlcommon.translate_all(ctx)
+
+    def t_sweeps():
+        import compatsweep
+        compatsweep.emit_compat_sweeps(info["spec"])
+        return True
+    lib.translate(ctx, [("compat-sweeps(coq/Gen/CompatSweep*.v from the current tables)", t_sweeps)])
     for attempt in range(3):
         shutil.rmtree(DUMP, ignore_errors=True)
         shutil.copytree(xmlcommon.DUMP, DUMP)
